@@ -113,7 +113,11 @@ def inline_helpers(prog, module, keep=(), also=()):
             return False
         if g.qname in also:
             return True
-        return g.module.name == module and g.name.startswith("_") and not g.name.startswith("__")
+        from ..sym import UNIT_HELPERS
+        if g.name.startswith("_") and not g.name.startswith("__"):
+            # private helpers of the module itself always; those of other modules unless the rules treat them as units of their own
+            return g.module.name == module or g.qname not in UNIT_HELPERS
+        return False
     return pol
 
 
